@@ -19,6 +19,10 @@ def showOutcome {α} (f : PixFmt α) : Outcome α → String
 def model (line : String) : String :=
   match words line with
   | ["rt", fmt, pix, _org, _dev, w, h, hex] =>
+    -- gray1[-w][-r]: writer / reader of the tree under test carry the proposed pnm gray1 fix
+    let wFixed := pix = "gray1-w" ∨ pix = "gray1-wr"
+    let rFixed := pix = "gray1-r" ∨ pix = "gray1-wr"
+    let pix := if pix.startsWith "gray1" then "gray1" else pix
     match Fmt.parse fmt, Pix.parse pix, w.toNat?, h.toNat? with
     | some fmt, some pix, some w, some h =>
       let bs := parseHex hex
@@ -28,7 +32,7 @@ def model (line : String) : String :=
       | .bmp, .rgba8 => showOutcome rgba8 (rtBmp4 (imgOfBytes rgba8 w h bs))
       | .pnm, .gray8 => showOutcome gray8 (rtPnm5 (imgOfBytes gray8 w h bs))
       | .pnm, .rgb8 => showOutcome rgb8 (rtPnm6 (imgOfBytes rgb8 w h bs))
-      | .pnm, .gray1 => showOutcome bit8 (rtPnm4 (imgOfBytes bit8 w h bs))
+      | .pnm, .gray1 => showOutcome bit8 (rtPnm4Variant wFixed rFixed (imgOfBytes bit8 w h bs))
       | .targa, .rgb8 => showOutcome rgb8 (rtTga3 (imgOfBytes rgb8 w h bs))
       | .targa, .rgba8 => showOutcome rgba8 (rtTga4 (imgOfBytes rgba8 w h bs))
       | _, _ => "unsupported"
@@ -38,7 +42,7 @@ def model (line : String) : String :=
     let tile : Option Nat := if (fmt.splitOn "-tile16").length > 1 then some 16 else if (fmt.splitOn "-tile32").length > 1 then some 32 else none
     let hex :=
       if fmt.startsWith "tiff" ∧ pix = "rgba8" then hexOf (tiffStoreRgba8 tile (w.toNat?.getD 1) (h.toNat?.getD 1) 0 (parseHex hex))
-      else if fmt.startsWith "tiff" ∧ tile.isSome ∧ pix = "rgb8" ∧ org = "alt" then hexOf (reverse3 (parseHex hex))
+      else if fmt.startsWith "tiff" ∧ tile.isSome ∧ pix = "rgb8" ∧ org = "alt" ∧ (fmt.splitOn "-cs").length = 1 then hexOf (reverse3 (parseHex hex))
       else hex
     "ext | " ++ w ++ " " ++ h ++ " " ++ hex
   | _ => "bad-op"
